@@ -11,6 +11,10 @@ use duplicate::duplicate_item;
 
 use crate::{Compression, Directory};
 
+/// Maximum nesting of leaf directories below the root directory (the reference
+/// implementations stop at the same depth).
+const MAX_DIRECTORY_DEPTH: u8 = 3;
+
 /// A structure representing a range of bytes within a larger amount of bytes.
 #[derive(Debug, Copy, Clone, PartialEq, Eq)]
 #[cfg_attr(feature = "serde", derive(serde::Serialize, serde::Deserialize))]
@@ -69,6 +73,7 @@ pub fn read_directories(
         root_dir_offset_length,
         leaf_dir_offset,
         &filter_range,
+        0,
     )?;
 
     Ok(tiles)
@@ -127,6 +132,7 @@ pub async fn read_directories_async(
         root_dir_offset_length,
         leaf_dir_offset,
         &filter_range,
+        0,
     )
     .await?;
 
@@ -157,7 +163,16 @@ async fn fn_name(
     (dir_offset, dir_length): (u64, u64),
     leaf_dir_offset: u64,
     filter_range: &FilterRangeTraits,
+    depth: u8,
 ) -> Result<()> {
+    // leaf pointers of a malformed archive may form cycles or endless chains
+    if depth > MAX_DIRECTORY_DEPTH {
+        return Err(std::io::Error::new(
+            std::io::ErrorKind::InvalidData,
+            "Leaf directories are nested too deeply.",
+        ));
+    }
+
     seek_start([reader], [dir_offset])?;
     let directory = read_directory([reader], [dir_length], [compression])?;
     let range_end = range_end_inc(filter_range).unwrap_or(u64::MAX);
@@ -169,13 +184,21 @@ async fn fn_name(
                 continue;
             }
 
+            let Some(offset) = leaf_dir_offset.checked_add(entry.offset) else {
+                return Err(std::io::Error::new(
+                    std::io::ErrorKind::InvalidData,
+                    "Offset of a leaf directory exceeds 64 bits.",
+                ));
+            };
+
             add_await([fn_name(
                 reader,
                 tiles,
                 compression,
-                (leaf_dir_offset + entry.offset, u64::from(entry.length)),
+                (offset, u64::from(entry.length)),
                 leaf_dir_offset,
                 filter_range,
+                depth + 1,
             )])?;
             continue;
         }
